@@ -19,7 +19,7 @@ from . import evidence, findings
 from .explorer import canon
 
 ROOT = os.path.dirname(os.path.dirname(os.path.abspath(__file__)))
-REPLAY_DIR = os.path.join(ROOT, "replays")
+REPLAY_DIR = os.environ.get("SPECMC_REPLAY_DIR") or os.path.join(ROOT, "replays")
 NPROC = int(os.environ.get("SPECMC_PROCS", "0")) or min(16, os.cpu_count() or 4)
 CASE_LIMIT_S = float(os.environ.get("SPECMC_CASE_LIMIT", "20"))
 MAX_REPORT = 20
